@@ -1949,7 +1949,7 @@ impl Prop for C08 {
     fn fuzz(t: Tier) -> Option<FuzzSpec> {
         match t {
             Tier::Quick => None,
-            Tier::Thorough => Some(FuzzSpec { target: "c08_metadata", runs: 1000000, max_len: 1024 }),
+            Tier::Thorough => Some(FuzzSpec { target: "c08_metadata", runs: 300_000, max_len: 1024 }),
         }
     }
     fn max_shrink_iters() -> u32 {
